@@ -551,6 +551,18 @@ def stage_pkgconf(rep, rng, n, seen_disagreement=False):
         vars_ = pc_vars(d)
         lists = [[f] for f in CORPUS_FLAGS] + [gen_flag_list(rng, rep) for _ in range(n)]
         lists = [fl for fl in lists if fl and flags_in_domain(fl)]
+        # pkgconf merges repeated fragments (a second -I/-L of the same directory is dropped, of other typed fragments the
+        # earlier one; fragment.c pkgconf_fragment_copy): a list in which two flags DENOTE the same argument says nothing
+        # more than the list without the repetition, and the reader model does not describe the merging - such lists are
+        # left out (counted), they are not a disagreement
+        nodup = []
+        for fl in lists:
+            dn = canon_args(denote(fl, vars_))
+            if len(set(dn)) != len(dn):
+                rep.count('pkgconf:list_with_repeated_flag_left_out')
+            else:
+                nodup.append(fl)
+        lists = nodup
         texts = []
         for k, fl in enumerate(lists):
             field = impl_field('Cflags', fl)
